@@ -276,11 +276,14 @@ def history_rows(v):
     return (sorted(v.msgs.items(), key=lambda kv: kv[0]), sorted((d, f, tuple(sorted(i))) for d, f, i in v.dellog), v.topic.get("delid"))
 
 
-def monitor(sc, views):
+def monitor(sc, views, acting=None, users=None):
+    """acting(k) -> the user request k is executed as (msg.AsUser: the session's own user, or the user named by
+    extra.obo of a root session), or None when Session.dispatch refuses the request; default: the user the
+    session is attached as (= its own user for every session that never names another user)"""
     res = []
     sp = Spec()
     prev = None
-    users = sorted(set(sc.sessions.values()))
+    users = users or sorted(set(sc.sessions.values()))
     for k, v in enumerate(views):
         fault, kind, args = sc.ops[k]
         sid = args[0] if args else None
@@ -291,11 +294,20 @@ def monitor(sc, views):
         attached = prev is not None and prev.loaded and sid in prev.csess
         mode = ""
         lastid = 0
+        if acting is not None and sid is not None:
+            actor = acting(k)
+            if actor is None:
+                # refused by Session.dispatch: the laws about refused requests are the caller's
+                if prev is not None and history_rows(v) != history_rows(prev):
+                    res.append(("history-rows-stable", k, "%s refused by the dispatcher changed message rows / log rows / delete counter" % kind))
+                prev = v
+                continue
         if attached:
-            p = prev.cusers.get(prev.csess[sid])
+            if acting is None:
+                actor = prev.csess[sid]
+            p = prev.cusers.get(actor)
             mode = eff(p["want"], p["given"]) if p else ""
             lastid = prev.cache.get("lastid", 0)
-            actor = prev.csess[sid]
         crashed = fault != "N" and fault[0] == "C"
         changed_rows = prev is not None and history_rows(v) != history_rows(prev)
 
@@ -333,6 +345,8 @@ def monitor(sc, views):
                         law = "history-soft-deleted-shown"
                     elif extra and len(got) > lim and all(q in inwin for q in extra):
                         law = "history-limit"
+                    elif extra and missing and all(q in inwin for q in extra):
+                        law = "history-message-missing"      # a visible message is left out, an older one fills the answer
                     elif extra:
                         law = "history-outside-range"
                     elif missing:
